@@ -499,6 +499,57 @@ func intList(p *packages.Package, vs *ast.ValueSpec, i int, what string) []int64
 	return res
 }
 
+// sixteenRunes: the BCD-plus alphabet - the package-level table of pkg/ipmi with exactly 16 constant rune/byte elements
+// (by name if it is still called bcdPlusRunes, else by shape)
+func sixteenRunes(p *packages.Package) []int64 {
+	var found [][]int64
+	for _, f := range p.Syntax {
+		for _, d := range f.Decls {
+			gd, ok := d.(*ast.GenDecl)
+			if !ok || gd.Tok != token.VAR {
+				continue
+			}
+			for _, s := range gd.Specs {
+				vs := s.(*ast.ValueSpec)
+				for i := range vs.Names {
+					if i >= len(vs.Values) {
+						continue
+					}
+					cl, ok := vs.Values[i].(*ast.CompositeLit)
+					if !ok || len(cl.Elts) != 16 {
+						continue
+					}
+					var vals []int64
+					for _, e := range cl.Elts {
+						tv, ok := p.TypesInfo.Types[e]
+						if !ok || tv.Value == nil {
+							vals = nil
+							break
+						}
+						if b, ok := tv.Type.Underlying().(*types.Basic); !ok || (b.Kind() != types.Int32 && b.Kind() != types.Uint8 && b.Kind() != types.UntypedRune) {
+							vals = nil
+							break
+						}
+						v, _ := evalInt(p, e)
+						vals = append(vals, v)
+					}
+					if vals != nil {
+						if vs.Names[i].Name == "bcdPlusRunes" {
+							return vals
+						}
+						found = append(found, vals)
+					}
+				}
+			}
+		}
+	}
+	if len(found) == 1 {
+		return found[0]
+	}
+	fail("BCD-plus alphabet: %d candidate tables", len(found))
+	return nil
+}
+
 func nlist(xs []int64) string {
 	var s []string
 	for _, x := range xs {
@@ -684,6 +735,37 @@ func varKind(t types.Type) string {
 	}
 	if hasSync(t, 0) {
 		return "sync"
+	}
+	// Prometheus collectors (and structs / pointers to structs made only of them): safe for concurrent use by the
+	// client library's contract, and commutative (C19_counters)
+	var onlyMetrics func(t types.Type, depth int) bool
+	onlyMetrics = func(t types.Type, depth int) bool {
+		if depth > 4 {
+			return false
+		}
+		if n, ok := t.(*types.Named); ok && n.Obj().Pkg() != nil && strings.HasPrefix(n.Obj().Pkg().Path(), "github.com/prometheus/client_golang/prometheus") {
+			return true
+		}
+		switch u := t.Underlying().(type) {
+		case *types.Pointer:
+			return onlyMetrics(u.Elem(), depth+1)
+		case *types.Struct:
+			if u.NumFields() == 0 {
+				return false
+			}
+			for i := 0; i < u.NumFields(); i++ {
+				if !onlyMetrics(u.Field(i).Type(), depth+1) {
+					return false
+				}
+			}
+			return true
+		}
+		return false
+	}
+	if _, named := t.(*types.Named); !named || !strings.HasPrefix(t.String(), "github.com/prometheus") {
+		if _, isPtrOrStruct := t.Underlying().(*types.Interface); !isPtrOrStruct && onlyMetrics(t, 0) {
+			return "metric"
+		}
 	}
 	if t.String() == "error" {
 		return "error" // a sentinel error value
@@ -911,7 +993,6 @@ func main() {
 		{ipmi, "EntityIDAirInlet"}, {ipmi, "EntityIDProcessor"}, {ipmi, "EntityIDSystemBoard"},
 		{ipmi, "EntityIDDCMIAirInlet"}, {ipmi, "EntityIDDCMIProcessor"}, {ipmi, "EntityIDDCMISystemBoard"}, {ipmi, "SensorTypeTemperature"},
 		{ipmi, "SlaveAddressBMC"}, {ipmi, "SoftwareIDRemoteConsole1"}, {ipmi, "AuthenticationTypeRMCPPlus"}, {ipmi, "AuthenticationTypeNone"},
-		{root, "sdrHeaderLength"}, {root, "sdrMaxLength"},
 		{dcmi, "SystemPowerStatisticsModeEnhanced"},
 	} {
 		c := c
@@ -1014,8 +1095,7 @@ func main() {
 	})
 	// bcdPlusRunes
 	section([]def{{"bcdPlusRunes", "list N", "[]"}}, func() {
-		vs, i := findVar(ipmi, "bcdPlusRunes")
-		emit("Definition bcdPlusRunes : list N := %s.", nlist(intList(ipmi, vs, i, "bcdPlusRunes")))
+		emit("Definition bcdPlusRunes : list N := %s.", nlist(sixteenRunes(ipmi)))
 	})
 	// map key -> function name tables
 	for _, t := range []struct{ v, name string }{{"linearisationLinearisers", "linearisers"}} {
@@ -1036,13 +1116,106 @@ func main() {
 		})
 	}
 	// DCMI entity lists
-	for _, n := range []string{"ipmiSensorEntityIDs", "dcmiSensorEntityIDs"} {
-		n := n
-		section([]def{{n, "list N", "[]"}}, func() {
-			vs, i := findVar(dcmi, n)
-			emit("Definition %s : list N := %s.", n, nlist(intList(dcmi, vs, i, n)))
-		})
-	}
+	section([]def{{"entity_groups", "list (list N)", "[]"}}, func() {
+		// every package-level composite literal of pkg/dcmi whose elements are all ipmi.EntityID constants (the entity
+		// families GetSensorInfo enumerates), whatever the variables are called and however they are grouped
+		var groups []string
+		for _, f := range dcmi.Syntax {
+			for _, d := range f.Decls {
+				gd, ok := d.(*ast.GenDecl)
+				if !ok || gd.Tok != token.VAR {
+					continue
+				}
+				ast.Inspect(gd, func(n ast.Node) bool {
+					cl, ok := n.(*ast.CompositeLit)
+					if !ok || len(cl.Elts) == 0 {
+						return true
+					}
+					var vals []int64
+					for _, e := range cl.Elts {
+						if kv, ok := e.(*ast.KeyValueExpr); ok {
+							e = kv.Value
+						}
+						tv, ok := dcmi.TypesInfo.Types[e]
+						if !ok || tv.Value == nil || !strings.HasSuffix(tv.Type.String(), "ipmi.EntityID") {
+							return true
+						}
+						v, _ := evalInt(dcmi, e)
+						vals = append(vals, v)
+					}
+					groups = append(groups, nlist(vals))
+					return true
+				})
+			}
+		}
+		sort.Strings(groups)
+		emit("Definition entity_groups : list (list N) := [%s].", strings.Join(groups, "; "))
+	})
+	section([]def{{"sdr_length_consts", "list N", "[]"}, {"sdr_offset_consts", "list N", "[]"}, {"sdr_max_consts", "list N", "[]"}}, func() {
+		// the constants the SDR walk puts into the Length / Offset fields of a Get SDR request, and the constants a record
+		// header's length is compared with - by the types of the fields, not by the names of constants or functions
+		sets := map[string]map[int64]bool{"Length": {}, "Offset": {}, "max": {}}
+		isReqField := func(e ast.Expr) string {
+			se, ok := e.(*ast.SelectorExpr)
+			if !ok {
+				return ""
+			}
+			if sel, ok := root.TypesInfo.Selections[se]; ok && strings.HasSuffix(sel.Recv().String(), "ipmi.GetSDRReq") {
+				return se.Sel.Name
+			}
+			return ""
+		}
+		for _, f := range root.Syntax {
+			if strings.Contains(root.Fset.Position(f.Pos()).Filename, "verif_hooks") {
+				continue
+			}
+			ast.Inspect(f, func(n ast.Node) bool {
+				switch x := n.(type) {
+				case *ast.CompositeLit:
+					if tv, ok := root.TypesInfo.Types[x]; ok && strings.HasSuffix(tv.Type.String(), "ipmi.GetSDRReq") {
+						for _, e := range x.Elts {
+							if kv, ok := e.(*ast.KeyValueExpr); ok {
+								if id, ok := kv.Key.(*ast.Ident); ok && sets[id.Name] != nil {
+									if v, ok := evalInt(root, kv.Value); ok {
+										sets[id.Name][v] = true
+									}
+								}
+							}
+						}
+					}
+				case *ast.AssignStmt:
+					for i, l := range x.Lhs {
+						if fld := isReqField(l); sets[fld] != nil && fld != "" && i < len(x.Rhs) {
+							if v, ok := evalInt(root, x.Rhs[i]); ok {
+								sets[fld][v] = true
+							}
+						}
+					}
+				case *ast.BinaryExpr:
+					if x.Op == token.GTR || x.Op == token.GEQ || x.Op == token.LSS || x.Op == token.LEQ {
+						for _, pair := range [][2]ast.Expr{{x.X, x.Y}, {x.Y, x.X}} {
+							if se, ok := pair[0].(*ast.SelectorExpr); ok && se.Sel.Name == "Length" {
+								if sel, ok := root.TypesInfo.Selections[se]; ok && strings.HasSuffix(sel.Recv().String(), "ipmi.SDR") {
+									if v, ok := evalInt(root, pair[1]); ok {
+										sets["max"][v] = true
+									}
+								}
+							}
+						}
+					}
+				}
+				return true
+			})
+		}
+		for _, k := range []struct{ key, name string }{{"Length", "sdr_length_consts"}, {"Offset", "sdr_offset_consts"}, {"max", "sdr_max_consts"}} {
+			var vs []int64
+			for v := range sets[k.key] {
+				vs = append(vs, v)
+			}
+			sort.Slice(vs, func(i, j int) bool { return vs[i] < vs[j] })
+			emit("Definition %s : list N := %s.", k.name, nlist(vs))
+		}
+	})
 	emit("")
 	section([]def{{"package_vars", "list string", "[]"}, {"package_var_kinds", "list (string * string)", `[("?", "?")]`}, {"global_writes", "list (string * string * string * string)", `[("?", "?", "?", "?")]`},
 		{"global_aliases", "list (string * string * string * string)", `[("?", "?", "?", "?")]`}}, func() {
